@@ -272,38 +272,34 @@ inductive Slot where
   deriving DecidableEq, Repr, Inhabited
 
 structure World where
-  parents : List (Option Nat)      -- class k's direct base
+  mros : List (List Nat)           -- class k's MRO below k itself (user node classes, nearest first);
+                                   -- one element for single inheritance, several for `class C(A, B)`
   slots : List (Option Slot)       -- class k's own `__dict__` entry for the accessor
   deriving Repr, Inhabited
 
-/-- `class K(parent): …` → `__init_subclass__` sets the stub on the new class -/
-def World.defineClass (w : World) (parent : Option Nat) : World :=
-  ⟨w.parents ++ [parent], w.slots ++ [some .stub]⟩
+/-- `class K(bases…): …` → `__init_subclass__` sets the stub on the new class -/
+def World.defineClass (w : World) (mro : List Nat) : World :=
+  ⟨w.mros ++ [mro], w.slots ++ [some .stub]⟩
 
-/-- attribute lookup along the MRO (fuel = number of classes); reaching `ASTNode` finds the
-method defined there, which is again a bootstrap stub -/
-def World.lookup (w : World) : Nat → Nat → Slot
-  | 0, _ => .stub
-  | fuel + 1, k =>
-    match w.slots[k]? with
-    | some (some s) => s
-    | _ =>
-      match w.parents[k]? with
-      | some (some p) => w.lookup fuel p
-      | _ => .stub
+/-- attribute lookup along the MRO: the entry of the first class of `k :: mro k` that has one;
+reaching `ASTNode` finds the method defined there, which is again a bootstrap stub -/
+def World.lookup (w : World) (k : Nat) : Slot :=
+  match (k :: (w.mros[k]?).getD []).findSome? (fun c => (w.slots[c]?).join) with
+  | some s => s
+  | none => .stub
 
 /-- calling the accessor on an instance of class `k`: returns the class whose generated function
 finally runs, and the new world (a stub generates for `type(self)` = `k` and installs it on `k`) -/
 def World.call (w : World) (k : Nat) : Nat × World :=
-  match w.lookup w.parents.length k with
+  match w.lookup k with
   | .gen c => (c, w)
-  | .stub => (k, ⟨w.parents, w.slots.set k (some (.gen k))⟩)
+  | .stub => (k, ⟨w.mros, w.slots.set k (some (.gen k))⟩)
 
 /-! ### variants used only by the `…_fails` witnesses of `Props/C12.lean` -/
 
 /-- class definition without the re-pointing of `__init_subclass__` -/
-def World.defineClassNoRepoint (w : World) (parent : Option Nat) : World :=
-  ⟨w.parents ++ [parent], w.slots ++ [none]⟩
+def World.defineClassNoRepoint (w : World) (mro : List Nat) : World :=
+  ⟨w.mros ++ [mro], w.slots ++ [none]⟩
 
 /-- `_build_body` before the repair (F12): `return` after the `compare` test -/
 def buildPropPre (d : FDecl) : PStmt :=
